@@ -398,6 +398,135 @@ def goto_term_tests(repo):
     return res
 
 
+def call_args(stmt, fname):
+    m = re.search(r"\b%s\s*\(" % re.escape(fname), stmt, re.I)
+    if not m:
+        return None
+    i, d = m.end(), 1
+    j = i
+    while j < len(stmt) and d:
+        d += {"(": 1, ")": -1}.get(stmt[j], 0); j += 1
+    return split_top(stmt[i:j - 1])
+
+
+def const_params(repo):
+    """C API function -> [True if the parameter is declared const ...] from the raw headers"""
+    res = {}
+    for h in ("cgnslib.h", "cgns_io.h"):
+        try:
+            ht = open(os.path.join(repo, "src", h), errors="replace").read()
+        except OSError:
+            continue
+        ht = re.sub(r"/\*.*?\*/", " ", ht, flags=re.S)
+        for m in re.finditer(r"\b(cg\w*)\s*\(([^()]*)\)\s*;", ht):
+            res[m.group(1)] = [bool(re.search(r"\bconst\b", a)) for a in m.group(2).split(",")]
+    return res
+
+
+DECL_RE = re.compile(r"^(INTEGER|REAL|CHARACTER|LOGICAL|TYPE\s*\(|DOUBLE\s+PRECISION|IMPLICIT|USE|IMPORT)\b", re.I)
+
+
+def modproc_rows(pp_text, ifaces, modprocs, protos, consts):
+    """every module procedure of cgns_f.F90 that calls a C function through a nested BIND(C) interface: number of dummies vs
+    number of C parameters, and for every actual argument of the call that is a LOCAL variable passed by reference for an
+    output of the C function (not VALUE, not INTENT(IN), not set before the call): is it copied back to a dummy afterwards
+    (dummy = INT(temp), dummy = temp, CALL C_F_string_chars / C_F_string_ptr(temp, dummy)), and, for a CHARACTER temporary,
+    its declared size; plus the INTENT(OUT) dummies that are never assigned."""
+    lines = logical_lines(pp_text)
+    nested = {}
+    for p in ifaces:
+        if p["owner"]:
+            nested.setdefault(p["owner"].lower(), []).append(p)
+    mp = {p["name"].lower(): p for p in modprocs}
+    rows, notes = [], {"intent_in_on_output": [], "arity_mismatch": []}
+    try:
+        i = [k for k, l in enumerate(lines) if re.match(r"CONTAINS\b", l, re.I)][0] + 1
+    except IndexError:
+        return [], notes
+    n = len(lines)
+    while i < n:
+        m = re.match(r"(?:\w+\s+)*SUBROUTINE\s+(\w+)", lines[i], re.I)
+        if not (m and m.group(1).lower() in mp):
+            i += 1; continue
+        name = m.group(1).lower()
+        j, depth, body = i + 1, 0, []
+        while j < n and not re.match(r"END\s*SUBROUTINE\s+%s\b" % name, lines[j], re.I):
+            l = lines[j]
+            if re.match(r"INTERFACE\b", l, re.I):
+                depth += 1
+            elif re.match(r"END\s*INTERFACE\b", l, re.I):
+                depth -= 1
+            elif depth == 0:
+                body.append(l)
+            j += 1
+        i = j + 1
+        p = mp[name]
+        dummies = [a.upper() for a in p["argnames"]]
+        decls = p["decls"]
+        locals_ = {k for k in decls if k not in dummies}
+        ex = [l for l in body if not DECL_RE.match(l)]
+        full = "\n".join(ex)
+        cfn = [nf["name"] for nf in nested.get(name, [])]
+        nocall = "\n".join(l for l in ex if not any(re.search(r"\b%s\s*\(" % re.escape(c), l, re.I) for c in cfn))
+        for nf in nested.get(name, []):
+            for st in ex:
+                a = call_args(st, nf["name"])
+                if a is None:
+                    continue
+                proto = protos.get(nf["link"])
+                ncp = -1
+                if proto is not None and "TOther" not in proto:
+                    ncp = len(proto)
+                    if len(dummies) != ncp + 1:
+                        notes["arity_mismatch"].append({"proc": name, "cfunc": nf["link"], "dummies": len(dummies), "c_params": list(proto)})
+                outs = []
+                for k, (act, nd) in enumerate(zip(a, nf["args"])):
+                    act = act.strip()
+                    if not re.fullmatch(r"\w+", act) or nd[2]:
+                        continue
+                    d = nf["decls"].get(nd[0].upper())
+                    intent_in = bool(d) and any(re.sub(r"\s+", "", x).upper() == "INTENT(IN)" for x in d[1])
+                    A = act.upper()
+                    cc = consts.get(nf["link"])
+                    if intent_in and cc and k < len(cc) and not cc[k] and nd[1] != "FChar":
+                        notes["intent_in_on_output"].append("%s: %s(%s)" % (name, nf["name"], nd[0]))
+                    if intent_in and not (cc and k < len(cc) and not cc[k] and nd[1] != "FChar"):
+                        continue
+                    if A in dummies:
+                        outs.append("(%d, OutDirect, (-1))" % k); continue
+                    if A not in locals_:
+                        outs.append("(%d, OutUnknown, (-1))" % k); continue
+                    before = "\n".join(ex[:ex.index(st)])
+                    if re.search(r"^\s*%s(\([^=]*\))?\s*=" % A, before, re.I | re.M):
+                        continue                                  # an input temporary, set before the call
+                    copied = (re.search(r"^\s*\w+(\([^=]*\))?\s*=\s*[^\n]*\b%s\b" % A, nocall, re.I | re.M) or
+                              re.search(r"CALL\s+C_F_\w+\s*\(\s*%s\b" % A, nocall, re.I))
+                    size = -1
+                    dd = decls.get(A)
+                    if dd and re.match(r"CHARACTER", dd[0], re.I):
+                        sm = re.search(r"\b%s\s*\(([^()]*)\)" % A, "\n".join(body), re.I)
+                        size = -2
+                        if sm:
+                            e = re.sub(r"\bMAX_LEN\b", "32", sm.group(1), flags=re.I)
+                            if re.fullmatch(r"[\d+*\s]+", e):
+                                size = int(eval(e, {"__builtins__": {}}, {}))
+                    elif dd and re.sub(r"\s+", "", dd[0]).upper() == "TYPE(C_PTR)":
+                        size = 0                                  # the C function allocates, C_F_string_ptr copies
+                    outs.append("(%d, %s, %s)" % (k, "OutCopied" if copied else "OutNotCopied", "(%d)" % size if size < 0 else str(size)))
+                unassigned = []
+                for dname in dummies:
+                    d = decls.get(dname)
+                    if d and any(re.sub(r"\s+", "", x).upper() == "INTENT(OUT)" for x in d[1]):
+                        if not (re.search(r"^\s*%s(\([^=]*\))?\s*=" % dname, full, re.I | re.M) or
+                                re.search(r"CALL\s+C_F_\w+\s*\([^)]*,\s*%s\s*\)" % dname, full, re.I) or
+                                re.search(r"[(,]\s*%s\s*[,)]" % dname, full, re.I)):
+                            unassigned.append(dname)
+                rows.append("{| m_proc := %s; m_cfunc := %s; m_ndummies := %d; m_ncparams := %s; m_outs := %s; m_unassigned := %s |}" % (
+                    q(name), q(nf["link"]), len(dummies), "(-1)" if ncp < 0 else str(ncp), coq_list(outs), coq_list([q(x) for x in unassigned])))
+                break
+    return rows, notes
+
+
 def goto_blocks(pp_text):
     """the executable part of the module procedures cg_goto_f / cg_gorel_f, statement by statement, as gstmt terms of
     coq/FtocGoto.v: which optional argument guards a block, which UserDataName_k and which i_k it forwards to which C half."""
@@ -519,7 +648,7 @@ def translate(repo, impl, implf, pp_text=None):
         rows.append("AUnparsed %s %s" % (q("cgns_f.F90"), q(pr[:200])))
     lines = ["(* GENERATED on every run by translators/c20f_iface.py from the current src/cgns_f.F90 (preprocessed with the",
              "   flags of the Fortran-enabled build), src/cg_ftoc.c, src/cgio_ftoc.c, cgnslib.h, cgns_io.h.  Never edit. *)",
-             "From Coq Require Import ZArith List String.", "From CgnsV Require Import Ftoc FtocAbi FtocGoto.", "Import ListNotations.",
+             "From Coq Require Import ZArith List String.", "From CgnsV Require Import Ftoc FtocAbi FtocGoto FtocMod.", "Import ListNotations.",
              "Local Open Scope string_scope.", "Local Open Scope Z_scope.", "", "Definition abi_table : list arow := ["]
     lines.append(";\n".join("  " + r for r in rows))
     lines.append("].")
@@ -533,6 +662,12 @@ def translate(repo, impl, implf, pp_text=None):
         lines.append("Definition %s_term : termtest := {| t_cmp := %s; t_blank := %s; t_empty := %s |}." % (
             k[3:], v[0], "true" if v[1] else "false", "true" if v[2] else "false"))
     lines.append("Definition goto_terms : list termtest := [goto_fc1_term; gorel_fc1_term].")
+    mrows, mnotes = modproc_rows(text, ifaces, modprocs, protos, const_params(repo))
+    info["modproc_rows"] = len(mrows)
+    info["modproc_notes"] = mnotes
+    lines.append("")
+    lines.append("(* the module procedures of cgns_f.F90 that call a C function: dummies vs C parameters, output temporaries *)")
+    lines.append("Definition mp_rows : list mprow := [\n  %s\n]." % ";\n  ".join(mrows))
     gb = goto_blocks(text)
     info["goto_blocks"] = {k: {"statements": len(v), "unrecognised": [x for x in v if x.startswith("GOther")][:5]} for k, v in gb.items()}
     lines.append("")
